@@ -173,8 +173,27 @@ def run_retry_callables(desc):
     kinds = []
     for t in range(m):
         deps = rng.sample(nodes, min(len(nodes), rng.choice([0, 1, 2])))
-        kind = rng.choice(["partial", "callobj", "method", "partial", "shared_fn", "shared_fn"])
+        kind = rng.choice(["partial", "callobj", "method", "partial", "shared_fn", "shared_fn", "wrapped", "wrapped", "wrapped_partial"])
         kinds.append(kind)
+        if kind in ("wrapped", "wrapped_partial"):
+            # the everyday decorated function: a functools.wraps wrapper (logging, timing, tracing decorators) - it carries __wrapped__
+            def make(tag):
+                def inner(*deps):
+                    return body(tag, *deps)
+
+                if kind == "wrapped_partial":
+                    w_ = functools.partial(inner)
+                    functools.update_wrapper(w_, inner)
+                    return w_
+
+                @functools.wraps(inner)
+                def traced(*deps):
+                    return inner(*deps)
+
+                return traced
+
+            nodes.append(plan.call(make(t), *deps))
+            continue
         if kind == "shared_fn":
             nodes.append(plan.call(body, t, *deps))  # several calls share ONE plain function object (tag passed as an argument)
             continue
@@ -198,7 +217,7 @@ def run_retry_callables(desc):
             bad = f"run returned {res!r}"
     r_ = {"status": "ok", "counters": {"retry_callable_runs": 1}, "nontrivial": any(flaky.values()), "sig": f"retry_callables|{m}|{n_att}|{kinds}|{sorted(flaky.items())}"}
     if bad:
-        r_.update(status="violation", detail=f"[retry={n_att} with partial / __call__ / bound-method targets] {bad}", mechanism="limits-retry", witness={"flaky": flaky, "kinds": kinds})
+        r_.update(status="violation", detail=f"[retry={n_att} with partial / __call__ / bound-method / functools.wraps-decorated targets] {bad}", mechanism="limits-retry", witness={"flaky": flaky, "kinds": kinds})
     return r_
 
 
